@@ -1,7 +1,10 @@
 // C13 — _address_translation(original, observed) on the REAL Multiaddr.
-// Contract: Some(r) <=> first components of both are IP/DNS; then r[0] ==
-// observed[0], r[1..] == original[1..] (same length); otherwise None.
-// Address shapes are concrete, payloads (IPs, ports) fully symbolic.
+// Contract (from the statement): Some(r) <=> the first components of both
+// addresses are IP/DNS components; then r[0] == observed[0], r[1..] ==
+// original[1..] (same length); otherwise None.
+// Address shapes are concrete, payloads (IPs, ports) fully symbolic.  The DNS
+// kinds and symbolic shapes are covered by model.rs (same function text run on a
+// sequence model of Multiaddr); this file is the cross-check on the real crate.
 use std::net::{Ipv4Addr, Ipv6Addr};
 
 fn ip4() -> Protocol<'static> {
@@ -17,71 +20,108 @@ fn udp() -> Protocol<'static> {
     Protocol::Udp(kani::any())
 }
 
-/// original = [o0, o1, o2], observed = [b0, b1]; expect translation
-fn check_translates(o0: Protocol<'static>, o1: Protocol<'static>, o2: Protocol<'static>, b0: Protocol<'static>, b1: Protocol<'static>) {
-    let original = Multiaddr::empty().with(o0).with(o1.clone()).with(o2.clone());
-    let observed = Multiaddr::empty().with(b0.clone()).with(b1);
-    match _address_translation(&original, &observed) {
+/// original = [o0, o1], observed = [b0, b1]; expect Some([b0, o1])
+fn check_translates(o0: Protocol<'static>, o1: Protocol<'static>, b0: Protocol<'static>, b1: Protocol<'static>) {
+    let original = Multiaddr::from(o0).with(o1.clone());
+    let observed = Multiaddr::from(b0.clone()).with(b1);
+    let r = _address_translation(&original, &observed);
+    match &r {
         None => assert!(false),
         Some(r) => {
             let mut it = r.iter();
             assert!(it.next() == Some(b0));
             assert!(it.next() == Some(o1));
-            assert!(it.next() == Some(o2));
             assert!(it.next().is_none());
         }
     }
+    std::mem::forget(r);
+    std::mem::forget(original);
+    std::mem::forget(observed);
 }
 
 fn check_none(original: Multiaddr, observed: Multiaddr) {
-    assert!(_address_translation(&original, &observed).is_none());
+    let r = _address_translation(&original, &observed);
+    assert!(r.is_none());
+    std::mem::forget(r);
+    std::mem::forget(original);
+    std::mem::forget(observed);
 }
 
 #[kani::proof]
 #[kani::unwind(24)]
 fn translate_ip4_by_ip4() {
-    check_translates(ip4(), tcp(), Protocol::Ws("/".into()), ip4(), tcp());
+    check_translates(ip4(), tcp(), ip4(), tcp());
 }
 
 #[kani::proof]
 #[kani::unwind(24)]
 fn translate_ip4_by_ip6() {
-    check_translates(ip4(), udp(), Protocol::QuicV1, ip6(), udp());
+    check_translates(ip4(), udp(), ip6(), udp());
 }
 
 #[kani::proof]
 #[kani::unwind(24)]
 fn translate_ip6_by_ip4() {
-    check_translates(ip6(), tcp(), Protocol::Tls, ip4(), tcp());
+    check_translates(ip6(), tcp(), ip4(), udp());
 }
 
 #[kani::proof]
 #[kani::unwind(24)]
 fn translate_ip6_by_ip6() {
-    check_translates(ip6(), udp(), Protocol::QuicV1, ip6(), tcp());
+    check_translates(ip6(), udp(), ip6(), tcp());
+}
+
+/// a longer tail is preserved component by component: [ip4, udp, quic-v1] by [ip6, udp]
+#[kani::proof]
+#[kani::unwind(24)]
+fn translate_keeps_three_component_tail() {
+    let (o1, b0) = (udp(), ip6());
+    let original = Multiaddr::from(ip4()).with(o1.clone()).with(Protocol::QuicV1);
+    let observed = Multiaddr::from(b0.clone()).with(udp());
+    let r = _address_translation(&original, &observed);
+    match &r {
+        None => assert!(false),
+        Some(r) => {
+            let mut it = r.iter();
+            assert!(it.next() == Some(b0));
+            assert!(it.next() == Some(o1));
+            assert!(it.next() == Some(Protocol::QuicV1));
+            assert!(it.next().is_none());
+        }
+    }
+    std::mem::forget(r);
+    std::mem::forget(original);
+    std::mem::forget(observed);
 }
 
 /// original does not start with IP/DNS => None (observed is a valid IP address)
 #[kani::proof]
 #[kani::unwind(24)]
-fn none_when_original_not_ip() {
-    check_none(Multiaddr::empty().with(tcp()).with(ip4()), Multiaddr::empty().with(ip4()).with(tcp()));
-    check_none(Multiaddr::empty().with(Protocol::P2pCircuit).with(ip6()), Multiaddr::empty().with(ip6()));
-    check_none(Multiaddr::empty(), Multiaddr::empty().with(ip4()));
+fn none_when_original_starts_with_tcp() {
+    check_none(Multiaddr::from(tcp()).with(ip4()), Multiaddr::from(ip4()));
 }
 
-/// observed does not start with IP/DNS (or is empty) => None
+/// observed does not start with IP/DNS => None (original is translatable)
 #[kani::proof]
 #[kani::unwind(24)]
-fn none_when_observed_not_ip() {
-    check_none(Multiaddr::empty().with(ip4()).with(tcp()), Multiaddr::empty().with(tcp()).with(ip4()));
-    check_none(Multiaddr::empty().with(ip6()).with(tcp()), Multiaddr::empty().with(udp()));
-    check_none(Multiaddr::empty().with(ip4()).with(tcp()), Multiaddr::empty());
+fn none_when_observed_starts_with_udp() {
+    check_none(Multiaddr::from(ip4()).with(tcp()), Multiaddr::from(udp()).with(ip4()));
+}
+
+/// an empty address on either side => None
+#[kani::proof]
+#[kani::unwind(24)]
+fn none_when_either_is_empty() {
+    if kani::any() {
+        check_none(Multiaddr::empty(), Multiaddr::from(ip4()));
+    } else {
+        check_none(Multiaddr::from(ip6()), Multiaddr::empty());
+    }
 }
 
 /// Vacuity canary: must FAIL.
 #[kani::proof]
 #[kani::unwind(24)]
 fn canary_never_translates() {
-    check_none(Multiaddr::empty().with(ip4()).with(tcp()), Multiaddr::empty().with(ip4()).with(tcp()));
+    check_none(Multiaddr::from(ip4()), Multiaddr::from(ip4()));
 }
